@@ -8,6 +8,8 @@
 //   cd <hex userDefines> <undefs> <hex cfg> <hexsrc>
 //                                   Settings{userDefines, userUndefs} -> Preprocessor::getcode(cfg) (createDUI + simplecpp)
 //        -> "T <hex of the code, white space normalised>" | "E ..."
+//   inc <hexdir> <-I dirs> <--include files> <hex main file name>      real files: #include resolution through the real Preprocessor
+//        -> "T <hex of the code>" | "E ..."
 //   defs / undefs: comma separated hex strings, "-" = none
 #include "common.h"
 #include "preprocessor.h"
@@ -154,6 +156,26 @@ int main() {
                     pp = preprocessor.getcode(unhex(f[3]), files, false);
                     if (!logger.last.empty()) std::cout << "E reported:" << hex(logger.last) << std::endl;
                     else std::cout << "T " << hex(normWs(pp)) << std::endl;
+                } catch (const simplecpp::Output& o) {
+                    std::cout << "E " << typeName(o.type) << ":" << hex(o.msg) << std::endl;
+                }
+            } else if (f[0] == "inc" && f.size() == 5) {
+                // files on disk: Settings{includePaths (-I, as cmdlineparser stores them: with trailing /), userIncludes (--include)}
+                // -> Preprocessor::loadFiles (simplecpp::load) + getcode
+                const std::string dir = unhex(f[1]);
+                Settings settings;
+                for (const std::string& i : lst(f[2])) settings.includePaths.push_back(i.back() == '/' ? i : i + "/");
+                for (const std::string& i : lst(f[3])) settings.userIncludes.push_back(i);
+                const std::string mainfile = dir + "/" + unhex(f[4]);
+                std::vector<std::string> files;
+                simplecpp::OutputList outputList;
+                simplecpp::TokenList tokens(mainfile, files, &outputList);
+                Preprocessor preprocessor(tokens, settings, logger, Standards::Language::C);
+                preprocessor.loadFiles(files);
+                preprocessor.removeComments();
+                try {
+                    const std::string pp = preprocessor.getcode("", files, false);
+                    std::cout << "T " << hex(normWs(pp)) << std::endl;
                 } catch (const simplecpp::Output& o) {
                     std::cout << "E " << typeName(o.type) << ":" << hex(o.msg) << std::endl;
                 }
